@@ -320,24 +320,24 @@ def selftest(st):
         else: st.ob(True, 'concrete')
 
 def main(tier, seed):
-    jobs = []
+    jobs = []; W1 = 300 if tier == 'quick' else 900; W2 = 300 if tier == 'quick' else 1500      # a healthy quick run needs ~30 s in total
+    K = sorted(set(x for x in NEEDLES if 65536 <= x < 2 ** 32))
+    for i in range(0, len(K), 2): jobs.append((f'isprime needles {K[i]}..', 'needles', dict(ns=K[i:i + 2]), 600))
     if tier == 'quick':
         edges = [0, 8, 64, 256, 1024, 4096, 16384, 32768, 49152, 65536]
         flim = 1024; plim = 1024
     else:
         edges = [0, 8, 64, 256] + list(range(1024, 65537, 4096)) + [65536]
         edges = sorted(set(edges)); flim = 8192; plim = 4096
-    for lo, hi in zip(edges, edges[1:]): jobs.append((f'isprime[{lo},{hi})', 'isprime16', dict(lo=lo, hi=hi), 900))
+    for lo, hi in zip(edges, edges[1:]): jobs.append((f'isprime[{lo},{hi})', 'isprime16', dict(lo=lo, hi=hi), W1))
     fe = [0, 4, 64, 256, 512, 768, 1024] + list(range(2048, flim + 1, 1024))
     fe = [e for e in fe if e <= flim]
-    for lo, hi in zip(fe, fe[1:]): jobs.append((f'factor[{lo},{hi})', 'factor_small', dict(lo=lo, hi=hi), 1500))
+    for lo, hi in zip(fe, fe[1:]): jobs.append((f'factor[{lo},{hi})', 'factor_small', dict(lo=lo, hi=hi), W2))
     pe = list(range(0, plim + 1, 256))
     for lo, hi in zip(pe, pe[1:]):
-        jobs.append((f'primes[{lo},{hi})', 'primes_small', dict(lo=lo, hi=hi, fn='primes'), 1500))
-        jobs.append((f'nextprime[{lo},{hi})', 'primes_small', dict(lo=lo, hi=hi, fn='nextprime'), 1500))
-    jobs += [(f'nextprime history {f}', 'history', dict(first=f, lo=lo, hi=lo + 128), 900) for f in (1000, 300) for lo in (0, 128, 256)]
-    K = sorted(set(x for x in NEEDLES if 65536 <= x < 2 ** 32))
-    for i in range(0, len(K), 2): jobs.append((f'isprime needles {K[i]}..', 'needles', dict(ns=K[i:i + 2]), 900))
+        jobs.append((f'primes[{lo},{hi})', 'primes_small', dict(lo=lo, hi=hi, fn='primes'), W2))
+        jobs.append((f'nextprime[{lo},{hi})', 'primes_small', dict(lo=lo, hi=hi, fn='nextprime'), W2))
+    jobs += [(f'nextprime history {f}', 'history', dict(first=f, lo=lo, hi=lo + 128), W1) for f in (1000, 300) for lo in (0, 128, 256)]
     jobs += [('guard:isprime', 'guard', dict(fn='isprime'), 600), ('guard:factor', 'guard', dict(fn='factor'), 600)]
     jobs += [('nextpow2', 'pow2', dict(fn='nextpow2'), 600), ('ispow2', 'pow2', dict(fn='ispow2'), 600)]
     return run_property(PID, tier, HARNESS, jobs, JOBFNS,
